@@ -804,19 +804,27 @@ class AlgoInterp(Interp):
         idx = len(self.digits)
         label = "%s#%d" % (cal.method, idx)
         ds = []
+        rng = getattr(self, "col_range", None)      # (lo, hi, number of columns): see recode_naf
         for i in range(nd):
+            if rng is not None and not (rng[0] <= (i % rng[2]) <= rng[1]):
+                ds.append(IntV(0, 8, True))
+                continue
             D = z3.Int("d%d_%d" % (idx, i))
             a, b = (tlo, thi) if i == nd - 1 else (lo, hi)
             self.assumptions.append(z3.And(D >= a, D <= b))
             ds.append(SymV(z3.Int2BV(D, 8), 8, True, D))
         src = args[0].get() if isinstance(args[0], Ref) else args[0]
-        val = sum(d.iv * (1 << (w * i)) for i, d in enumerate(ds))
+        val = sum((d.iv if isinstance(d, SymV) else d.v) * (1 << (w * i)) for i, d in enumerate(ds))
+        if rng is not None:
+            val = None      # partial digit vectors: the value relation is not used by column lemmas
         if isinstance(src, SymV):
             if src.iv is None or src.signed:
                 raise NotAbstractable("recoder argument without an unsigned integer view")
-            self.assumptions.append(val == src.iv)
+            if val is not None:
+                self.assumptions.append(val == src.iv)
         elif isinstance(src, ScalarTok):
-            self.assumptions.append(val == src.value)
+            if val is not None:
+                self.assumptions.append(val == src.value)
             self.recoded.append(src)
         else:
             raise NotAbstractable("recoder argument %r" % (src,))
